@@ -300,7 +300,7 @@ def v2v_cases(ctx, n):
 
 def run(ctx):
     import glob, json
-    n = ctx.n(220, 3000)
+    n = ctx.n(220, 1500)
     corpus = [json.load(open(f))["cfg"] for f in sorted(glob.glob("/verif/corpus/C05/*.json"))]
     failures = []; stats = dict(by_kind={}, issued=0, grown=0, space_kinds={}, corpus_cases=len(corpus)); distinct = 0; samples = []; seen = set()
     for i in range(n):
